@@ -45,6 +45,7 @@ type FuncSpec struct {
 	Inline   bool
 	NoReturn bool // calling it never returns (log.Fatal, os.Exit): treated as panic
 	NoEscape bool // structural: recover-frame rule
+	Trusted  bool // repository function whose contract is used but not verified (listed as assumption)
 	Nopanic  bool // shorthand for all safety checks
 	File     string
 	Used     bool
@@ -286,6 +287,8 @@ func (fs *FuncSpec) addDirective(word, rest, where string) error {
 		fs.NoReturn = true
 	case "noescape":
 		fs.NoEscape = true
+	case "trusted":
+		fs.Trusted = true
 	case "ints":
 		// only bv is implemented; recorded for the evidence
 	case "loop":
